@@ -43,12 +43,18 @@ def full_alphabet():
     ops += [("pos", p) for p in PS]
     ops += [("ori", o) for o in OS]
     ops.append(("reset",))
+    # aliasing inputs: the object's own getter output (a live view of its path) is passed back in
+    for st in ("auto", 0, -1, 1):
+        ops.append(("movelive", st))
+        for r in ("s", "v2"):
+            ops.append(("rotlive", r, st))
+    ops += [("poslive",), ("orilive",)]
     return ops
 
 
 def reduced_alphabet():
     return [op for op in full_alphabet()
-            if op[0] in ("pos", "ori", "reset") or (op[-1] in STARTS_RED and op[1] in ("s", "v2")
+            if op[0] in ("pos", "ori", "reset", "poslive", "orilive") or (op[-1] in STARTS_RED and op[1] in ("s", "v2")
                                                      and (op[0] == "move" or op[2] in ("N", "0", "s", "v2")))]
 
 
@@ -90,6 +96,14 @@ def apply_impl(o, op):
         o.orientation = None if OS[op[1]] is None else Rot(OS[op[1]])
     elif op[0] == "reset":
         o.reset_path()
+    elif op[0] == "movelive":
+        o.move(o.position, start=op[1])
+    elif op[0] == "rotlive":
+        o.rotate(Rot(ROT[op[1]]), anchor=o.position, start=op[2])
+    elif op[0] == "poslive":
+        o.position = o.position
+    elif op[0] == "orilive":
+        o.orientation = o.orientation
     else:
         raise AssertionError(op)
 
@@ -105,6 +119,14 @@ def apply_model(m, op):
         m.set_orientation(None if OS[op[1]] is None else Rot(OS[op[1]]).as_matrix())
     elif op[0] == "reset":
         m.reset()
+    elif op[0] == "movelive":
+        m.move(np.squeeze(np.array(m.arrays()[0], float)), op[1])
+    elif op[0] == "rotlive":
+        m.rotate(Rot(ROT[op[1]]).as_matrix(), np.squeeze(np.array(m.arrays()[0], float)), op[2])
+    elif op[0] == "poslive":
+        m.set_position(np.array(m.arrays()[0], float))
+    elif op[0] == "orilive":
+        m.set_orientation(np.array(m.arrays()[1], float))
 
 
 def read(o):
